@@ -181,8 +181,8 @@ pub fn checks() -> Vec<Check> {
     }
     v.push(Check {
         prop: "C11",
-        parts: vec![Part { name: hotplug::CONC.name(), xen: false, quick: 600_000, thorough: 30_000_000 }],
-        rule: "runs are 1-3 reader coroutines (memory(), clone the guard, into_inner, re-observe what they hold, drop) and 1-2 updater coroutines (lock, snapshot current, derive by insert/remove of a uniquely tagged region, write a generation tag, replace - or give the lock back without replacing) on one GuestMemoryAtomic and its clones, switched before every ArcSwap load/store, at every lock attempt and at every unlock; history oracle stamped with the global event sequence number: wholeness, stability, recency, no lost replacement, no deadlock; distinct = distinct event-log hash; non-trivial = a context switch inside an operation, at least one replacement and one observation",
+        parts: vec![Part { name: hotplug::CONC.name(), xen: false, quick: 600_000, thorough: 30_000_000 }, Part { name: hotplug::SEQ.name(), xen: false, quick: 300_000, thorough: 10_000_000 }],
+        rule: "runs are 1-3 reader coroutines (memory(), clone the guard, into_inner, re-observe what they hold, drop) and 1-2 updater coroutines (lock, snapshot current, derive by insert/remove of a uniquely tagged region, write a generation tag, replace - or give the lock back without replacing) on one GuestMemoryAtomic and its clones, switched before every ArcSwap load/store, at every lock attempt and at every unlock; history oracle stamped with the global event sequence number: wholeness, stability, recency, no lost replacement, no deadlock; plus the sequential histories of S-hotplug/sequential over several handles cloned from the same replaceable memory (publish, clone, snapshot, guard clone, into_inner, replace, drop in any order), where every snapshot-derived handle must keep showing the map it was taken from and a snapshot taken now must show the last replacement; distinct = distinct event-log hash; non-trivial = a context switch inside an operation, at least one replacement and one observation",
         assumptions: COMMON_ASSUMPTIONS.to_vec(),
         real: vec!["vm_memory::atomic (GuestMemoryAtomic, load guard, exclusive guard), GuestMemoryMmap (compiled from /repo working tree)", "arc-swap and std::sync::Mutex (real code, executed atomically between yield points; blocking replaced by a yielding try_lock loop)"],
         stub: vec!["thread scheduling and blocking on the update mutex (coroutines)"],
